@@ -12,23 +12,16 @@ def _blank(src, status):
 def _work(job):
     global _TV
     name, src, nsym, nin, max_instr = job
-    import signal
-    def on_alarm(sig, frm): raise TimeoutError("per-program wall-clock limit")
     r = None
     try:
         if _TV is None: _TV = TV()
-        signal.signal(signal.SIGALRM, on_alarm); signal.alarm(PER_PROGRAM_S)
-        try:
-            r = validate(_TV, src, nsym=nsym, nin=nin, max_instr=max_instr, want_calls=True)
-        finally:
-            signal.alarm(0)
-    except TimeoutError:
-        r = _blank(src, "cut: per-program wall-clock limit")
+        r = validate(_TV, src, nsym=nsym, nin=nin, max_instr=max_instr, want_calls=True, deadline=time.time() + PER_PROGRAM_S)
+    except Inconclusive as e:
+        if 'path budget' in str(e): r = _blank(src, "cut: path budget")
+        else: r = _blank(src, f"engine-error: Inconclusive: {e}")
     except BaseException as e:
         import traceback
         r = _blank(src, f"engine-error: {type(e).__name__}: {e}"); r['tb'] = traceback.format_exc()[-1200:]
-    try: signal.alarm(0)
-    except Exception: pass
     r['name'] = name
     if 'compiled' in r:
         c = r.pop('compiled'); r['listing_bad'] = listing_vs_image(c); r['nwords'] = c.nwords
